@@ -63,6 +63,38 @@ func Num(t *rapid.T, hostile bool, label string) string {
 
 var alnum = []byte("abcxyzABCXYZ019-")
 
+// nearIdent edits one identifier at character level; the result is non-empty and has no leading-zero number.
+func nearIdent(t *rapid.T, id string) string {
+	b := []byte(id)
+	for n := rapid.IntRange(1, 2).Draw(t, "nedits"); n > 0; n-- {
+		pos := rapid.IntRange(0, len(b)).Draw(t, "epos")
+		c := alnum[rapid.IntRange(0, len(alnum)-1).Draw(t, "echar")]
+		switch rapid.IntRange(0, 2).Draw(t, "eop") {
+		case 0:
+			b = append(b[:pos:pos], append([]byte{c}, b[pos:]...)...)
+		case 1:
+			if pos < len(b) && len(b) > 1 {
+				b = append(b[:pos:pos], b[pos+1:]...)
+			}
+		case 2:
+			if pos < len(b) {
+				b[pos] = c
+			}
+		}
+	}
+	out := string(b)
+	allDigits := true
+	for _, c := range b {
+		if c < '0' || c > '9' {
+			allDigits = false
+		}
+	}
+	if out == "" || allDigits && len(out) > 1 && out[0] == '0' {
+		return "x" + out
+	}
+	return out
+}
+
 func identChars(t *rapid.T, lo, hi int, label string) string {
 	n := rapid.IntRange(lo, hi).Draw(t, label+"len")
 	b := make([]byte, n)
@@ -79,7 +111,7 @@ func PreIdent(t *rapid.T, hostile bool, label string) string {
 	case k < 30:
 		return Num(t, false, label+"n")
 	case k < 50:
-		return []string{"alpha", "beta", "rc", "pre", "RC", "Alpha", "a", "b", "A", "-", "--", "0a", "a0", "0-", "-0", "00a", "1-1"}[rapid.IntRange(0, 16).Draw(t, label+"word")]
+		return []string{"alpha", "beta", "rc", "pre", "RC", "Alpha", "a", "b", "A", "-", "--", "0a", "a0", "0-", "-0", "00a", "1-1", "rc-1", "rc-9", "rc-10", "x-1a", "x-2", "x--", "20200101000000-123456789012", "20200101000000-abcdef123456"}[rapid.IntRange(0, 24).Draw(t, label+"word")]
 	case k < 80:
 		return identChars(t, 1, 5, label)
 	case k < 88:
@@ -165,7 +197,13 @@ func Near(t *rapid.T, p VerParts, hostile bool) VerParts {
 	case 2, 3, 4:
 		if len(q.Pre) > 0 {
 			i := rapid.IntRange(0, len(q.Pre)-1).Draw(t, "pi")
-			q.Pre[i] = PreIdent(t, hostile, "npre")
+			if rapid.Bool().Draw(t, "charlevel") {
+				// stay close: edit the identifier at character level (keeps shared prefixes,
+				// changes lengths of digit runs after a hyphen, turns numeric into alphanumeric, ...)
+				q.Pre[i] = nearIdent(t, q.Pre[i])
+			} else {
+				q.Pre[i] = PreIdent(t, hostile, "npre")
+			}
 		} else if len(q.Nums) == 3 {
 			q.Pre = []string{PreIdent(t, hostile, "npre")}
 		}
